@@ -207,6 +207,22 @@ class FetchNoCrash(_c04.FetchShape):
     def corpus(self):
         return []
 
+    def requests(self, case, impl_obs):
+        reqs = super().requests(case, impl_obs)
+        # the hypotheses of C16_fetch_no_crash, evaluated by the model on this master / these sources
+        self._nfetch = len(reqs)
+        if self.in_domain(case) and reqs:
+            first = reqs[0][1]
+            reqs = reqs + [("fetchok", [first[0], first[1]])]
+        return reqs
+
+    def model(self, case, replies, impl_obs):
+        n = getattr(self, "_nfetch", len(replies))
+        m = super().model(case, replies[:n], impl_obs)
+        if len(replies) > n and replies[n] != ["1", "1"] and m != "UNMODELLED":
+            return ["hypotheses-of-C16_fetch_no_crash-do-not-hold", replies[n], m]
+        return m
+
     def prop(self, case, o):
         if not isinstance(o, list):
             return None
@@ -228,14 +244,20 @@ class FetchNoCrash(_c04.FetchShape):
         def uniq(sc):
             seen = {}
             for o in sc.objects:
+                if o.is_definition and getattr(o.type, "phil_type", None) == "choice" and len(o.words) == 1 \
+                        and o.words[0].quote_token is None and o.words[0].value.lower() in ("none", "auto"):
+                    return False  # a choice master must list its alternatives (the code asserts it); the model's
+                    # master_ok asks this of disabled definitions too
                 if o.is_disabled:
+                    if o.is_scope and not uniq(o):
+                        return False
                     continue
                 first = seen.setdefault(o.name, o)
                 if first is not o:
                     # a repeated sibling name is well-formed only as a further occurrence of a .multiple object
                     # of the same kind (and, for definitions, the same type)
-                    if not first.multiple or first.is_scope != o.is_scope:
-                        return False
+                    if not first.multiple or not o.multiple or first.is_scope != o.is_scope:
+                        return False  # every occurrence of a multiple object carries .multiple itself
                     if o.is_definition and str(first.type) != str(o.type):
                         return False
                 if o.is_scope and not uniq(o):
